@@ -63,6 +63,11 @@ func faultKindsFor(ev simrt.Ev, writeHandles map[string]bool) (kinds []simrt.Fau
 		return []simrt.Fault{f("errno:ENOENT", 0), f("errno:EACCES", 0), f("errno:EMFILE", 0), f("errno:EIO", 0)}, "input", false
 	case "read":
 		if ev.Path == "/dev/stdin" {
+			if ev.Err == "EOF" {
+				// standard input is always parsed as JSON, which delimits itself: a writer that lingers after
+				// the document must not keep the tool waiting
+				return []simrt.Fault{f("errno:EIO", 0), f("stall", 0)}, "stdin", false
+			}
 			return []simrt.Fault{f("errno:EIO", 0), f("eof", 0)}, "stdin", false
 		}
 		return []simrt.Fault{f("errno:EIO", 0), f("eof", 0), f("errno:EISDIR", 0)}, "input", false
@@ -86,6 +91,9 @@ func faultKindsFor(ev simrt.Ev, writeHandles map[string]bool) (kinds []simrt.Fau
 	case "http":
 		return []simrt.Fault{f("neterr", 0)}, "input", false
 	case "httpread":
+		if ev.Err == "EOF" && strings.HasSuffix(strings.SplitN(ev.Path, "?", 2)[0], ".json") {
+			return []simrt.Fault{f("neterr", 0), f("stall", 0)}, "input", false // a JSON body delimits itself too
+		}
 		return []simrt.Fault{f("neterr", 0), f("eof", 0)}, "input", false
 	}
 	return nil, "", false
@@ -206,6 +214,21 @@ func (p c18) battery(env *Env) (*Case, []*Out) {
 			}
 		}
 	}
+	// every chain shape at depth 16 (a linear generator needs a few thousand ticks for it)
+	for _, shape := range chainShapes {
+		if shape == "anyof-two" {
+			continue // KF-C18-1
+		}
+		nf := *t0
+		nf.Doc = withChain(t0.Doc, shape, 16)
+		spec := w.Spec("", nil, args)
+		for i := range spec.FS {
+			if spec.FS[i].Path == "/w/a/t0f.json" {
+				spec.FS[i].Data = nf.Bytes(nil)
+			}
+		}
+		add("deep chain "+shape+" depth 16", spec, c18Run{Kind: "valid", Ref: -1, Feature: "deep-chain:" + shape})
+	}
 	// every oddity alone at a property position, under two option sets
 	for _, o := range oddities {
 		for _, opt := range []int{0, 1} {
@@ -267,7 +290,7 @@ func (p c18) Slice(c *Case, idx []int) *Case {
 }
 
 func (p c18) Gen(t *rapid.T, env *Env) (*Case, []*Out) {
-	scenario := rapid.SampledFrom([]string{"env", "env", "env", "content", "defect", "defect", "defect", "flags", "recursive", "stdin", "odd", "odd"}).Draw(t, "scenario")
+	scenario := rapid.SampledFrom([]string{"env", "env", "env", "content", "defect", "defect", "defect", "flags", "recursive", "stdin", "odd", "odd", "deep"}).Draw(t, "scenario")
 	var w *World
 	var args []string
 	maxFiles := 3
@@ -357,6 +380,13 @@ func (p c18) Gen(t *rapid.T, env *Env) (*Case, []*Out) {
 				sp.Chunks, sp.MapDefault = chunks, mapDefault
 				return sp
 			}(), c18Run{Kind: "verbose", Ref: 0, Feature: feature})
+		}
+		if webAllJSON(&spec0) {
+			// every HTTP body is JSON (self-delimiting): a server that neither announces a length nor closes
+			// the connection must not keep the tool waiting
+			sp := wspec("", nil, args)
+			sp.HeldOpen = true
+			add("held-open", sp, c18Run{Kind: "heldopen", Ref: 0, Feature: feature})
 		}
 		writeHandles := map[string]bool{}
 		for _, ev := range o0.Res.Trace {
@@ -452,6 +482,34 @@ func (p c18) Gen(t *rapid.T, env *Env) (*Case, []*Out) {
 		add("valid-world", spec0, c18Run{Kind: "valid", Ref: -1, Feature: feature})
 	case "odd":
 		genOddities(t, w, args, add)
+	case "deep":
+		// a chain of definitions, each built from the previous one: the document grows linearly with the depth,
+		// so must the work (bounded liveness: the tick / memory budgets are ~10x what a linear generator needs at
+		// the largest depth drawn)
+		if afs := argFiles(w, args); len(afs) > 0 {
+			f := afs[0]
+			shape := rapid.SampledFrom(chainShapes).Draw(t, "chainshape")
+			maxk := 22
+			if env.Thorough() {
+				maxk = 40
+			}
+			k := rapid.IntRange(4, maxk).Draw(t, "chaindepth")
+			if shape == "anyof-two" && k > 14 {
+				k = 14 // known finding KF-C18-1 (path-by-path expansion): deeper chains only burn the budget
+			}
+			nf := *f
+			nf.Doc = withChain(f.Doc, shape, k)
+			for i, wf := range w.Files {
+				if wf == f {
+					cp := *w
+					cp.Files = append([]*SFile{}, w.Files...)
+					cp.Files[i] = &nf
+					w = &cp
+				}
+			}
+			feature = "deep-chain:" + shape
+			add(fmt.Sprintf("deep chain %s depth %d", shape, k), w.Spec("", nil, args), c18Run{Kind: "valid", Ref: -1, Feature: feature})
+		}
 	case "stdin":
 		// a schema on standard input ("-"), whole and torn
 		f := w.Files[0]
@@ -469,6 +527,14 @@ func (p c18) Gen(t *rapid.T, env *Env) (*Case, []*Out) {
 						add("stdin-fault "+k, s2, c18Run{Kind: "fault", What: k, Op: "read", Target: "stdin", MayFail: true, MustFail: k != "eof", Ref: 0, Feature: feature})
 					}
 				}
+			}
+			{
+				// the writer lingers: everything sent, the pipe stays open. JSON delimits itself - the tool must finish
+				s4 := w.Spec("", nil, []string{"-"})
+				s4.Stdin = data
+				s4.HeldOpen = true
+				s4.Chunks = rapid.SampledFrom([][]int{nil, {1}, {7}, {64}, {len(data)}, {len(data) - 1, 1}}).Draw(t, "heldchunks")
+				add("stdin-held-open", s4, c18Run{Kind: "heldopen", Ref: 0, Feature: feature})
 			}
 			if len(data) > 2 {
 				cut := rapid.IntRange(1, len(data)-2).Draw(t, "stdincut")
@@ -1108,6 +1174,8 @@ func (p c18) Eval(c *Case, outs []*Out) []Discrepancy {
 			ctx = "flag:" + mr.What
 		case "verbose":
 			ctx = "verbose"
+		case "heldopen":
+			ctx = "stream-held-open"
 		case "odd":
 			ctx = "odd-but-valid:" + mr.What
 		case "valid", "reference":
@@ -1230,6 +1298,9 @@ func (p c18) Eval(c *Case, outs []*Out) []Discrepancy {
 					}
 				}
 			}
+			if mr.Kind == "heldopen" && (exit == 0) != (ref.Res.Exit == 0) {
+				add("S0", "held-open-changes-exit", fmt.Sprintf("exit %d with the stream held open, %d when it is closed", exit, ref.Res.Exit))
+			}
 			if mr.Kind == "verbose" && (exit == 0) != (ref.Res.Exit == 0) {
 				add("S0", "verbose-changes-exit", fmt.Sprintf("exit %d with -v, %d without", exit, ref.Res.Exit))
 			}
@@ -1239,6 +1310,60 @@ func (p c18) Eval(c *Case, outs []*Out) []Discrepancy {
 		}
 	}
 	return ds
+}
+
+var chainShapes = []string{"allof-ref+prop", "anyof-ref+prop", "prop-twice", "items", "allof-two", "addl", "anyof-two"}
+
+// withChain adds definitions Ch0..Chk (each built from its predecessor(s) in the given shape) and a property that
+// refers to the last one.
+func withChain(doc Obj, shape string, k int) Obj {
+	doc = cloneObj(doc)
+	ref := func(i int) any { return Obj{{"$ref", fmt.Sprintf("#/$defs/Ch%d", i)}} }
+	doc = withDef(doc, "Ch0", Obj{{"type", "object"}, {"properties", Obj{{"x0", Obj{{"type", "string"}}}}}})
+	for i := 1; i <= k; i++ {
+		x := fmt.Sprintf("x%d", i)
+		var d Obj
+		switch shape {
+		case "allof-ref+prop":
+			d = Obj{{"type", "object"}, {"allOf", []any{ref(i - 1), Obj{{"properties", Obj{{x, ref(i - 1)}}}}}}}
+		case "anyof-ref+prop":
+			d = Obj{{"type", "object"}, {"anyOf", []any{ref(i - 1), Obj{{"type", "object"}, {"properties", Obj{{x, ref(i - 1)}}}}}}}
+		case "prop-twice":
+			d = Obj{{"type", "object"}, {"properties", Obj{{x + "a", ref(i - 1)}, {x + "b", ref(i - 1)}}}}
+		case "items":
+			d = Obj{{"type", "array"}, {"items", ref(i - 1)}}
+		case "allof-two":
+			j := i - 2
+			if j < 0 {
+				j = 0
+			}
+			d = Obj{{"type", "object"}, {"allOf", []any{ref(i - 1), ref(j), Obj{{"properties", Obj{{x, Obj{{"type", "integer"}}}}}}}}}
+		case "anyof-two":
+			j := i - 2
+			if j < 0 {
+				j = 0
+			}
+			d = Obj{{"type", "object"}, {"anyOf", []any{ref(i - 1), ref(j)}}}
+		default: // addl
+			d = Obj{{"type", "object"}, {"additionalProperties", ref(i - 1)}}
+		}
+		doc = withDef(doc, fmt.Sprintf("Ch%d", i), d)
+	}
+	return addProp(doc, "chaintop", ref(k))
+}
+
+// webAllJSON: the world has documents on the simulated web and all of them are parsed as JSON.
+func webAllJSON(sp *simrt.Spec) bool {
+	if len(sp.Web) == 0 {
+		return false
+	}
+	for _, e := range sp.Web {
+		u := strings.SplitN(e.URL, "?", 2)[0]
+		if !strings.HasSuffix(u, ".json") || strings.Contains(e.ContentType, "yaml") {
+			return false
+		}
+	}
+	return true
 }
 
 func clipStack(s string) string {
